@@ -1,7 +1,7 @@
 PROP = dict(
     id="C02",
     lean_modules=["TongoProofs.C02"],
-    gen=[],
+    gen=["LevelMask"],
     spec_ops=("cell.hash", "cell.levels"),
     rule="random DAGs; non-trivial = >= 2 cells",
     trusted_base=[],
